@@ -96,7 +96,8 @@ func nullWrapped(st *types.Struct) *types.Var {
 
 func sqlLiteral(v constant.Value) string {
 	if v.Kind() == constant.String {
-		return "'" + constant.StringVal(v) + "'"
+		// an SQL string literal: apostrophes doubled, nothing else escaped (standard_conforming_strings)
+		return "'" + strings.ReplaceAll(constant.StringVal(v), "'", "''") + "'"
 	}
 	return v.ExactString()
 }
